@@ -233,16 +233,16 @@ theorem run_inv (cfg : Cfg) (ops : List Op) (h : Hist) (hw : ∀ op ∈ ops, wfO
 
 /-! ### no AssertionError under the invariant -/
 
-theorem spawn_ok (cfg : Cfg) (now : Int) (res : SpawnRes) (p : Proc)
+theorem spawn_ok (os : List Out) (cfg : Cfg) (now : Int) (res : SpawnRes) (p : Proc)
     (hs : p.state = .exited ∨ p.state = .stopped ∨ p.state = .backoff ∨ p.state = .fatal) :
-    (spawn cfg now res { p := p }).err = none := by
+    (spawn cfg now res { p := p, outs := os }).err = none := by
   rcases hs with hs | hs | hs | hs <;> cases res <;> by_cases hp : p.pid = 0 <;>
     simp [procdefs, hs, hp] <;> (repeat' split) <;> simp_all
 
 /-- what a spawn out of BACKOFF leaves behind: STARTING with the retry counter untouched, or BACKOFF -/
-theorem spawn_from_backoff (cfg : Cfg) (now : Int) (res : SpawnRes) (p : Proc) (hs : p.state = .backoff) :
-    ((spawn cfg now res { p := p }).p.state = .backoff) ∨
-    ((spawn cfg now res { p := p }).p.backoff = p.backoff ∧ (spawn cfg now res { p := p }).p.state ≠ .backoff) := by
+theorem spawn_from_backoff (os : List Out) (cfg : Cfg) (now : Int) (res : SpawnRes) (p : Proc) (hs : p.state = .backoff) :
+    ((spawn cfg now res { p := p, outs := os }).p.state = .backoff) ∨
+    ((spawn cfg now res { p := p, outs := os }).p.backoff = p.backoff ∧ (spawn cfg now res { p := p, outs := os }).p.state ≠ .backoff) := by
   cases res <;> by_cases hp : p.pid = 0 <;> simp [procdefs, hs, hp] <;> (repeat' split) <;> simp_all
 
 theorem giveUp_ok (cfg : Cfg) (now : Int) (s : S) (hs : s.p.state = .backoff) (he : s.err = none) :
@@ -281,14 +281,14 @@ theorem toRunning_ok (cfg : Cfg) (e : Env) (s : S) (hs : s.p.state = .starting) 
     simp_all [toRunning, changeState, assertIn, emit, setP, guard, transition_a4, transition_a5, transition_c0, transition_c1_0,
       change_state_g0, change_state_g1, change_state_a0, change_state_a2, announces_all]
 
-theorem blocks_ok (cfg : Cfg) (now mood : Int) (res : SpawnRes) (kr : KillRes) (q : Proc) (hq : Inv q) :
+theorem blocks_ok (os : List Out) (cfg : Cfg) (now mood : Int) (res : SpawnRes) (kr : KillRes) (q : Proc) (hq : Inv q) :
     (escalate cfg { now := now, mood := mood, st0 := q.state } kr
       (toRunning cfg { now := now, mood := mood, st0 := q.state }
-        (autoStart cfg { now := now, mood := mood, st0 := q.state } res { p := q }))).err = none := by
+        (autoStart cfg { now := now, mood := mood, st0 := q.state } res { p := q, outs := os }))).err = none := by
   generalize he : ({ now := now, mood := mood, st0 := q.state } : Env) = e
   have hst : e.st0 = q.state := by rw [← he]
   have hnow : e.now = now := by rw [← he]
-  rcases autoStart_cases cfg e res { p := q } with h | ⟨h, hc⟩
+  rcases autoStart_cases cfg e res { p := q, outs := os } with h | ⟨h, hc⟩
   · rw [h]
     cases hs : q.state
     case starting =>
@@ -312,15 +312,15 @@ theorem blocks_ok (cfg : Cfg) (now mood : Int) (res : SpawnRes) (kr : KillRes) (
       rw [toRunning_id _ _ _ (by rw [hst, hs]; simp), escalate_id _ _ _ _ (by rw [hst, hs]; simp) (by rw [hst, hs]; simp)]
   · rw [h, hnow]
     rcases hc with hc | hc | ⟨hc, hle⟩
-    · have hok := spawn_ok cfg now res q (Or.inl (hst ▸ hc))
+    · have hok := spawn_ok os cfg now res q (Or.inl (hst ▸ hc))
       rw [toRunning_id _ _ _ (by rw [hc]; simp), escalate_id _ _ _ _ (by rw [hc]; simp) (by rw [hc]; simp)]
       exact hok
-    · have hok := spawn_ok cfg now res q (Or.inr (Or.inl (hst ▸ hc)))
+    · have hok := spawn_ok os cfg now res q (Or.inr (Or.inl (hst ▸ hc)))
       rw [toRunning_id _ _ _ (by rw [hc]; simp), escalate_id _ _ _ _ (by rw [hc]; simp) (by rw [hc]; simp)]
       exact hok
     · have hsb : q.state = .backoff := hst ▸ hc
-      have hok := spawn_ok cfg now res q (Or.inr (Or.inr (Or.inl hsb)))
-      have hsp := spawn_from_backoff cfg now res q hsb
+      have hok := spawn_ok os cfg now res q (Or.inr (Or.inr (Or.inl hsb)))
+      have hsp := spawn_from_backoff os cfg now res q hsb
       rw [toRunning_id _ _ _ (by rw [hc]; simp)]
       simp only [escalate, guard, transition_g12, transition_g13, transition_g14, hc, hok]
       simp
@@ -332,18 +332,18 @@ theorem blocks_ok (cfg : Cfg) (now mood : Int) (res : SpawnRes) (kr : KillRes) (
 
 /-- **no pass-time operation raises**: `transition()` never trips `_assertInState` on a process
     satisfying the bookkeeping invariant -/
-theorem transition_ok (cfg : Cfg) (p : Proc) (now mood : Int) (res : SpawnRes) (kr : KillRes) (hi : Inv p) :
-    (transition cfg now mood res kr { p := p }).err = none := by
+theorem transition_ok (os : List Out) (cfg : Cfg) (p : Proc) (now mood : Int) (res : SpawnRes) (kr : KillRes) (hi : Inv p) :
+    (transition cfg now mood res kr { p := p, outs := os }).err = none := by
   have hq := rollback_inv cfg now p hi
   obtain ⟨hs, _, _⟩ := rollback_fields cfg now p
   simp only [transition, guard, setP, transition_a1, Option.isSome_none, Bool.false_eq_true, if_false]
   rw [← hs]
-  exact blocks_ok cfg now mood res kr (rollback cfg now p) hq
+  exact blocks_ok os cfg now mood res kr (rollback cfg now p) hq
 
-theorem finishCore_ok (cfg : Cfg) (e : Env) (busy : Bool) (p : Proc)
+theorem finishCore_ok (os : List Out) (cfg : Cfg) (e : Env) (busy : Bool) (p : Proc)
     (h : p.state = .unknown ∨ (p.state = .stopping ∧ p.killing = true) ∨ (p.state = .starting ∧ p.killing = false) ∨
       (p.state = .running ∧ p.killing = false ∧ e.tooQuickly = false)) :
-    (finishCore cfg e busy { p := p }).err = none := by
+    (finishCore cfg e busy { p := p, outs := os }).err = none := by
   rcases h with hs | ⟨hs, hk⟩ | ⟨hs, hk⟩ | ⟨hs, hk, ht⟩ <;> cases busy <;> cases ht' : e.tooQuickly <;> cases hx : e.exitExpected <;>
     cases hk' : p.killing <;> simp_all [procdefs]
 
@@ -356,8 +356,8 @@ theorem tooQuickly_running_false (cfg : Cfg) (now es : Int) (p : Proc) (hs : p.s
 /-- **reaping never raises**: `finish()` on a process that holds a child (pid ≠ 0) and satisfies the
     invariant cannot trip `_assertInState` — in particular not in UNKNOWN (fix F9) and not in
     RUNNING after a clock jump -/
-theorem finish_ok (cfg : Cfg) (p : Proc) (now es : Int) (busy : Bool) (hi : Inv p) (hp : p.pid ≠ 0)
-    (hw : 0 ≤ cfg.startsecs) : (finish cfg now es busy { p := p }).err = none := by
+theorem finish_ok (os : List Out) (cfg : Cfg) (p : Proc) (now es : Int) (busy : Bool) (hi : Inv p) (hp : p.pid ≠ 0)
+    (hw : 0 ≤ cfg.startsecs) : (finish cfg now es busy { p := p, outs := os }).err = none := by
   obtain ⟨h1, h2, h3⟩ := rollback_fields cfg now p
   have htq := tooQuickly_running_false cfg now es p
   simp only [finish, guard, setP, finish_a2, Option.isSome_none, Bool.false_eq_true, if_false]
@@ -381,23 +381,23 @@ theorem finish_ok (cfg : Cfg) (p : Proc) (now es : Int) (busy : Bool) (hi : Inv 
     · have := hi.killing hk; simp_all
   all_goals (exfalso; apply hp; apply hi.dead; simp [hs])
 
-theorem stop_ok (cfg : Cfg) (now : Int) (kr : KillRes) (p : Proc)
+theorem stop_ok (os : List Out) (cfg : Cfg) (now : Int) (kr : KillRes) (p : Proc)
     (hs : p.state = .running ∨ p.state = .starting ∨ p.state = .backoff) :
-    (stop cfg now kr { p := p }).err = none := by
+    (stop cfg now kr { p := p, outs := os }).err = none := by
   simp only [stop, guard, Option.isSome_none, Bool.false_eq_true, if_false]
   apply kill_ok_live
   · rcases hs with hs | hs | hs <;> simp [setP, guard, hs]
   · simp [setP, guard]
 
-theorem groupStop_ok (cfg : Cfg) (now : Int) (kr : KillRes) (p : Proc) : (groupStop cfg now kr { p := p }).err = none := by
+theorem groupStop_ok (os : List Out) (cfg : Cfg) (now : Int) (kr : KillRes) (p : Proc) : (groupStop cfg now kr { p := p, outs := os }).err = none := by
   simp only [groupStop, guard, Option.isSome_none, Bool.false_eq_true, if_false]
   repeat' split
-  · exact stop_ok _ _ _ _ (by simp_all)
-  · exact stop_ok _ _ _ _ (by simp_all)
+  · exact stop_ok _ _ _ _ _ (by simp_all)
+  · exact stop_ok _ _ _ _ _ (by simp_all)
   · exact giveUp_ok _ _ _ (by simp_all) rfl
   · rfl
 
-theorem rpcStop_ok (cfg : Cfg) (now mood : Int) (kr : KillRes) (p : Proc) : (rpcStop cfg now mood kr { p := p }).err = none := by
+theorem rpcStop_ok (os : List Out) (cfg : Cfg) (now mood : Int) (kr : KillRes) (p : Proc) : (rpcStop cfg now mood kr { p := p, outs := os }).err = none := by
   have hemit : ∀ (o : Out) (s : S), (emit o s).err = s.err := by
     intro o s; obtain ⟨q, os, err⟩ := s; cases err <;> simp [emit, guard]
   simp only [rpcStop, guard, Option.isSome_none, Bool.false_eq_true, if_false, answer]
@@ -410,13 +410,13 @@ theorem rpcStop_ok (cfg : Cfg) (now mood : Int) (kr : KillRes) (p : Proc) : (rpc
        simp [runningStates] at h2
        cases hs : p.state <;> simp_all)
 
-theorem signal_ok (cfg : Cfg) (now sig : Int) (kr : KillRes) (p : Proc)
+theorem signal_ok (os : List Out) (cfg : Cfg) (now sig : Int) (kr : KillRes) (p : Proc)
     (hs : p.state = .running ∨ p.state = .starting ∨ p.state = .stopping) :
-    (signal cfg now sig kr { p := p }).err = none := by
+    (signal cfg now sig kr { p := p, outs := os }).err = none := by
   rcases hs with hs | hs | hs <;> cases kr <;> by_cases hp : p.pid = 0 <;> simp [procdefs, hs, hp]
 
-theorem rpcSignal_ok (cfg : Cfg) (now mood sig : Int) (kr : KillRes) (p : Proc) :
-    (rpcSignal cfg now mood sig kr { p := p }).err = none := by
+theorem rpcSignal_ok (os : List Out) (cfg : Cfg) (now mood sig : Int) (kr : KillRes) (p : Proc) :
+    (rpcSignal cfg now mood sig kr { p := p, outs := os }).err = none := by
   have hemit : ∀ (o : Out) (s : S), (emit o s).err = s.err := by
     intro o s; obtain ⟨q, os, err⟩ := s; cases err <;> simp [emit, guard]
   simp only [rpcSignal, guard, Option.isSome_none, Bool.false_eq_true, if_false, answer]
